@@ -32,6 +32,7 @@ type Config struct {
 	ShortMs    int    // primary solver's first-stage timeout
 	Fallback   string // fallback solver kind ("" = none)
 	ModelGuide bool
+	NoSnapshot bool
 }
 
 type Obligation struct {
@@ -110,6 +111,15 @@ type Explorer struct {
 	Errors    []string
 	SolverErr []string
 	Fallbacks int
+	snaps     []*snapshot
+	qcache    sync.Map
+	CacheHits int64
+	SnapUsed  int
+}
+
+type snapshot struct {
+	key []int
+	st  *State
 }
 
 func NewExplorer(p *Program, entry *ssa.Function, cfg Config) *Explorer {
@@ -284,6 +294,52 @@ func (e *Explorer) worker(i int) {
 	}
 }
 
+// saveSnapshot stores a deep copy of s (called at vfBegin) keyed by the decisions made so far.
+func (e *Explorer) saveSnapshot(s *State) {
+	if s.fromSnap || s.merge != nil {
+		return
+	}
+	e.mu.Lock()
+	n := len(e.snaps)
+	for _, sn := range e.snaps {
+		if equalInts(sn.key, s.trace) {
+			e.mu.Unlock()
+			return
+		}
+	}
+	e.mu.Unlock()
+	if n >= 64 {
+		return
+	}
+	cp := s.clone()
+	e.mu.Lock()
+	e.snaps = append(e.snaps, &snapshot{key: append([]int{}, s.trace...), st: cp})
+	e.mu.Unlock()
+}
+
+func equalInts(a, b []int) bool {
+	if len(a) != len(b) {
+		return false
+	}
+	for i := range a {
+		if a[i] != b[i] {
+			return false
+		}
+	}
+	return true
+}
+
+func (e *Explorer) findSnapshot(prefix []int) *snapshot {
+	e.mu.Lock()
+	defer e.mu.Unlock()
+	for _, sn := range e.snaps {
+		if len(sn.key) <= len(prefix) && equalInts(sn.key, prefix[:len(sn.key)]) {
+			return sn
+		}
+	}
+	return nil
+}
+
 func (e *Explorer) newState(solver *Solver) *State {
 	s := &State{prog: e.Prog, ex: e, solver: solver, globals: map[*ssa.Global]*Object{},
 		locks: map[lockKey]*lockState{}, pools: map[lockKey][]Value{}, wgs: map[lockKey]*Term{},
@@ -293,7 +349,20 @@ func (e *Explorer) newState(solver *Solver) *State {
 }
 
 func (e *Explorer) runPath(solver *Solver, fbs []*Solver, prefix []int) {
-	s := e.newState(solver)
+	var s *State
+	resume := false
+	if sn := e.findSnapshot(prefix); sn != nil && !e.Cfg.NoSnapshot {
+		s = sn.st.clone()
+		s.solver = solver
+		s.fromSnap = true
+		s.dpos = len(sn.key)
+		resume = true
+		e.mu.Lock()
+		e.SnapUsed++
+		e.mu.Unlock()
+	} else {
+		s = e.newState(solver)
+	}
 	s.fallbacks = fbs
 	s.forced = prefix
 	solver.Push()
@@ -310,13 +379,17 @@ func (e *Explorer) runPath(solver *Solver, fbs []*Solver, prefix []int) {
 				}
 			}
 		}()
+		if resume {
+			s.runAll(true)
+			return
+		}
 		main := &Thread{id: 0, name: "main"}
 		s.threads = []*Thread{main}
 		s.cur = main
 		s.tick(main)
 		s.runInit()
 		s.pushFrame(e.Entry, nil, nil, nil)
-		s.runAll()
+		s.runAll(false)
 	}()
 	solver.Pop()
 	if status == "panic" {
@@ -380,8 +453,8 @@ func (s *State) runInit() {
 // Summary lines for logs.
 func (e *Explorer) Summary() string {
 	var sb strings.Builder
-	fmt.Fprintf(&sb, "harness %s: paths=%d steps=%d queries(unsat/sat/unknown)=%d/%d/%d fallbacks=%d solver=%.1fs depth=%d\n",
-		e.Entry.Name(), e.Paths, e.Steps, e.Queries[0], e.Queries[1], e.Queries[2], e.Fallbacks, e.SolverT.Seconds(), e.MaxDepth)
+	fmt.Fprintf(&sb, "harness %s: paths=%d steps=%d queries(unsat/sat/unknown)=%d/%d/%d fallbacks=%d cachehits=%d snap=%d solver=%.1fs depth=%d\n",
+		e.Entry.Name(), e.Paths, e.Steps, e.Queries[0], e.Queries[1], e.Queries[2], e.Fallbacks, e.CacheHits, e.SnapUsed, e.SolverT.Seconds(), e.MaxDepth)
 	var ks []string
 	for k := range e.Status {
 		ks = append(ks, k)
